@@ -4,13 +4,12 @@
     Raw.Reverse / DefaultReplyPather, which call it) plus the address swap done by
     the replying host; [Prov.rev_prov] is the reversed provenance path (slices in
     reverse order, ConsDir flipped, hops reversed; every hop keeps its beta).
-    One-hop and EPIC replies are outside these theorems (no model of those path
-    types here); see notes/C03.md. *)
+    EPIC and one-hop replies: Props/C03_ext.v (on top of the router models of C13 / C12). *)
 From Coq Require Import List NArith Bool Arith Lia.
 From Scion Require Import Lib.Check Model.Router Model.Network Model.Prov.
 From Scion Require Import Proofs.ProvFacts Proofs.Forward Proofs.Reverse Proofs.Reply.
 Import ListNotations.
-Import Router Network Prov.
+Import Scion.Model.Router.Router Network Prov.
 Local Open Scope N_scope.
 
 (** The request is delivered with its pointers at the last hop and with the SegIDs
